@@ -40,7 +40,7 @@ def claimed():
     return [p for p in ALL if (HERE / "rules" / f"{p.lower()}.py").exists()]
 
 
-def run_one(prop, tier, root, replay=None, write_ev=True, quiet=False):
+def run_one(prop, tier, root, replay=None, write_ev=True, quiet=False, selftest_info=None):
     mod = rule_module(prop)
     if mod is None:
         print(f"ANALYSIS-ERROR property={prop} no rule module (property not claimed)")
@@ -113,6 +113,8 @@ def run_one(prop, tier, root, replay=None, write_ev=True, quiet=False):
             f"{prop} [{tier}] root={root}: {n} obligations, {d} discharged, {len(listed)} known finding(s), "
             f"{len(unlisted)} violation(s), {distinct} distinct instances, {time.time() - t0:.2f}s"
         )
+    if selftest_info is not None:
+        L.extra["selftest"] = selftest_info
     if write_ev:
         stats = repo.stats()
         stats["digest"] = repo.digest()
@@ -167,14 +169,16 @@ def main(argv=None):
 
     prop = a.prop.upper()
     write_ev = not a.no_evidence and not a.replay and Path(a.root).resolve() == Path("/repo")
-    rc = run_one(prop, a.tier, a.root, a.replay, write_ev)
-    if a.tier == "thorough" and rc == 0 and not a.replay and not a.no_selftest:
+    st_info = None
+    st_rc = 0
+    if a.tier == "thorough" and not a.replay and not a.no_selftest:
         from sa import selftest
 
-        rc2 = selftest.run_for(prop, a.root, jobs=a.j)
-        if rc2 != 0:
-            print(f"ANALYSIS-ERROR property={prop} CHECKER-UNSOUND: self-validation failed (see above)")
-            return 2
+        st_rc, st_info = selftest.run_for(prop, a.root, jobs=a.j, verbose=False, want_info=True)
+    rc = run_one(prop, a.tier, a.root, a.replay, write_ev, selftest_info=st_info)
+    if st_rc != 0 and rc == 0:
+        print(f"ANALYSIS-ERROR property={prop} CHECKER-UNSOUND: self-validation failed (see above)")
+        return 2
     return rc
 
 
